@@ -32,7 +32,7 @@ def run(pid, tier, seed):
     rep = vlib.Report(pid, tier, seed)
     rng = random.Random(seed)
     rep.assumptions += [
-        "adapters: packetio.Buffer, dpipe, test.Bridge endpoint, vnet UDP socket through their public APIs in exact virtual time (testing/synctest); the vnet socket additionally in real time under the module's own timer-channel semantics (GODEBUG default of go.mod's go 1.20) with 150 ms margins; udp listener connections are covered by C11/C12's fake-socket harness reading through the same packetio.Buffer",
+        "adapters: packetio.Buffer, dpipe, test.Bridge endpoint, vnet UDP socket through their public APIs in exact virtual time (testing/synctest); the vnet socket additionally in real time under the module's own timer-channel semantics (GODEBUG default of go.mod's go 1.20) with 150 ms margins; udp listener connections (real loopback sockets) in real time as well, alternating SetReadDeadline and SetDeadline",
         "the harness acts at even half-ticks and places deadlines at odd ones, so no action coincides with an expiry; one reader at a time",
         "a Bridge endpoint only receives a message when Tick finds its reader waiting, so data arrives there only while a read is pending",
     ]
